@@ -39,7 +39,7 @@ var lsTracked = []lsTrack{
 	{"uasc", "SecureChannel", "requestID"}, {"uasc", "SecureChannel", "openingInstance"},
 	{"uasc", "channelInstance", "algo"}, {"uasc", "channelInstance", "sequenceNumber"},
 	{".", "Client", "subs"}, {".", "Client", "pendingAcks"},
-	{"server", "Node", "val"},
+	{"server", "Node", "val"}, {"server", "Node", "attr"},
 	{"server", "MonitoredItemService", "Items"}, {"server", "MonitoredItemService", "Nodes"}, {"server", "MonitoredItemService", "Subs"},
 	{"server", "SubscriptionService", "Subs"},
 	{"server", "sessionBroker", "s"}, {"server", "channelBroker", "s"},
@@ -55,16 +55,30 @@ var lsElemTracked = map[string]string{"instances": "SecureChannel"}
 var lsSliceMutators = map[string]bool{"Delete": true, "DeleteFunc": true, "Insert": true, "Replace": true, "Reverse": true,
 	"Sort": true, "SortFunc": true, "SortStableFunc": true, "Compact": true, "CompactFunc": true}
 
-// caller-holds-lock contracts: function -> locks (field name of the receiver's struct, exclusive?) held on entry
-var lsAnnotations = map[string][]struct {
-	lock string
-	excl bool
-}{
-	"updatePublishTimeout_NeedsSubMuxLock": {{"subMux", true}},
-	"registerSubscription_NeedsSubMuxLock": {{"subMux", true}},
-	"forgetSubscription_NeedsSubMuxLock":   {{"subMux", true}},
-	"handleAcks_NeedsSubMuxLock":           {{"subMux", true}},
-	"handleNotification_NeedsSubMuxLock":   {{"subMux", true}},
+// caller-holds-lock contracts: function -> locks held on entry.  lock = mutex field of the struct ("Mutex" for an
+// embedded sync.Mutex); the struct is the receiver's (param == "") or that of the named parameter (argument index
+// argIdx at call sites; a literal nil argument satisfies the contract: the function then takes the lock itself or
+// does not touch the instance).
+type lsAnn struct {
+	lock   string
+	excl   bool
+	param  string
+	argIdx int
+}
+
+var lsAnnotations = map[string][]lsAnn{
+	"updatePublishTimeout_NeedsSubMuxLock": {{lock: "subMux", excl: true}},
+	"registerSubscription_NeedsSubMuxLock": {{lock: "subMux", excl: true}},
+	"forgetSubscription_NeedsSubMuxLock":   {{lock: "subMux", excl: true}},
+	"handleAcks_NeedsSubMuxLock":           {{lock: "subMux", excl: true}},
+	"handleNotification_NeedsSubMuxLock":   {{lock: "subMux", excl: true}},
+	// the send path numbers and secures chunks under the lock of the channel instance it sends with
+	// ("we need to get a lock on the sequence number so we are sure to send them in the correct order")
+	"nextSequenceNumber": {{lock: "Mutex", excl: true}},
+	"newMessage":         {{lock: "Mutex", excl: true}},
+	"newRequestMessage":  {{lock: "Mutex", excl: true}},
+	"writeMessageChunks": {{lock: "Mutex", excl: true, param: "instance", argIdx: 1}},
+	"open":               {{lock: "Mutex", excl: true, param: "instance", argIdx: 1}},
 }
 
 // every call of an annotated function, and whether the caller holds the promised locks there
@@ -246,7 +260,13 @@ func lsGen(repo string) ([]lsSite, error) {
 				var held []lsHeld
 				if ann, ok := lsAnnotations[fd.Name.Name]; ok && recv != "" {
 					for _, a := range ann {
-						held = append(held, lsHeld{base: recv, name: w.env[recv] + "." + a.lock, excl: a.excl})
+						base := recv
+						if a.param != "" {
+							base = a.param
+						}
+						if w.env[base] != "" {
+							held = append(held, lsHeld{base: base, name: w.env[base] + "." + a.lock, excl: a.excl})
+						}
 					}
 				}
 				w.block(fd.Body.List, held)
@@ -638,10 +658,18 @@ func (w *lsWalker) expr(e ast.Expr, held []lsHeld, mode string) {
 				}
 			}
 			if ann, ok := lsAnnotations[sel.Sel.Name]; ok {
-				base := lsText(w.p.fset, sel.X)
 				good := true
 				for _, a := range ann {
+					base := lsText(w.p.fset, sel.X)
 					found := false
+					if a.param != "" {
+						if a.argIdx >= len(x.Args) {
+							good = false
+							continue
+						}
+						base = lsText(w.p.fset, x.Args[a.argIdx])
+						found = base == "nil"
+					}
 					for _, h := range held {
 						if h.base == base && strings.HasSuffix(h.name, "."+a.lock) && (h.excl || !a.excl) {
 							found = true
